@@ -44,10 +44,12 @@ CLAIMS = {
             "accumulate every entry and seal writes that digest, GC adds each dropped entry to the discard it reports, the "
             "verifier's gates exist, fail closed and dominate its verdict.  Does not decide that the numbers are right for "
             "every history or that every tamper is rejected.", "§4 C04"),
-    "C05": ("who-may-call + GUARDED (GC only under top_level), loop-body MUSTPASS (every entry read is written; every input/output wired), ORIGIN",
+    "C05": ("who-may-call + GUARDED (GC only under top_level), loop-body MUSTPASS (every entry read is written; every input/output wired; every policy child consulted), per-key state reset analysis, accumulator shape of the policy combinators, ORIGIN",
             "Decides rewrite completeness and GC confinement: GC is reachable only on the top_level edge and only with the "
             "configured policy; a plain compaction writes every entry it reads and leaves its loop only at end of input; "
-            "inputs are removed/opened/merged/summed and outputs added/linked/recorded/summed; GC's drops equal its discard.  "
+            "inputs are removed/opened/merged/summed and outputs added/linked/recorded/summed; GC's drops equal its discard; the "
+            "collector resets its per-key state on every key change; any/all consult every child without short-circuit and the version "
+            "counter always retains a key's first untombstoned version.  "
             "Does not decide multiset equality of contents or GC policy semantics.", "§4 C05"),
     "C06": ("HELD lock-guard dataflow (must/may), ORDER, GUARDED, WRITES and ORIGIN over KeyValueStore::{write,load,range_scan,_memtable_thread}",
             "Decides the critical-section and completion-order skeleton linearizability needs: one critical section assigns queue "
